@@ -6,24 +6,27 @@ import realtrig
 from irsym import Exec
 
 LEVEL = 'proof'
-CLAIM = ("slerp (with and without spin count), mix, lerp, gtx shortMix / fastMix / squad and the dual-quaternion lerp are executed symbolically from their clang IR. In rounding-erased real "
-         "arithmetic the solver proves, as a chain of lemmas each of which is a discharged obligation: the result has the shape (sin(theta-u) x + sin(u) z)/sin(theta) with z = +-y chosen so that "
-         "<x,z> >= 0 (slerp, shortMix) resp. z = y (mix), theta = acos<x,z> (shortMix: atan2(sqrt(1-<x,z>^2), <x,z>)), u = t*theta (u = t*(theta+k*pi) with spins); hence (code-free lemmas, for unit x, y) unit length, "
-         "<x,result> = cos(u) and <z,result> = cos(theta-u) (constant angular speed on the great arc, any real t), end points t=0 -> x, t=1 -> +-y (separate executions with the literal factor), "
-         "symmetry slerp(x,y,t) = +-slerp(y,x,1-t) (two executions on swapped arguments); on the linear-fallback branch the result is the affine blend whose squared norm differs from 1 by at most 12 eps for t in [-2,3]. "
-         "lerp is bit-exactly x*(1-a)+y*a per component (IEEE, operands of the commutative operations sorted) and its asserts are the only traps; the dual-quaternion lerp is x*(1-a) +- y*a; fastMix is the normalised blend "
-         "(unit length, end points); shortMix clamps a to [0,1]; squad returns q1 / q2 at h = 0 / 1. In IEEE arithmetic the argument of acos in slerp is shown to lie in [0, 1-eps] whenever the acos branch is taken.")
-BOUNDS = ("rounding-erased semantics for the arc claims (code links: all real quaternions x, y - unit length is only needed by the code-free lemmas -, every real t; spin counts k in -3..3 as separate instantiations); float and double; "
-          "the branch conditions (sign flip, fallback threshold 1-eps) are those of the exact values; lerp and the acos-domain claim are bit-precise over all inputs (acos-domain: every floating-point sum/product "
-          "abstracted to an arbitrary float, the dot product assumed not NaN)")
+CLAIM = ("slerp (with and without spin count k = -3..3), mix, lerp, gtx shortMix / fastMix / squad / intermediate, the gtx/compatibility lerp overloads and the dual-quaternion lerp are executed symbolically from "
+         "their clang IR. In rounding-erased real arithmetic the solver proves, as a chain of lemmas each of which is a discharged obligation: the result has the shape (sin(theta-u) x + sin(u) z)/sin(theta) with "
+         "z = +-y chosen so that <x,z> >= 0 (slerp, shortMix; theta <= pi/2: short arc) resp. z = y (mix), theta = acos<x,z> (shortMix: atan2(sqrt(1-<x,z>^2), <x,z>)), u = t*theta (u = t*(theta+k*pi) with spins); hence "
+         "(code-free lemmas, for unit x, y) unit length, <x,result> = cos(u) and <z,result> = cos(theta-u) (constant angular speed on the great arc, any real t), end points t=0 -> x, t=1 -> +-y (separate executions with "
+         "the literal factor), symmetry slerp(x,y,t) = +-slerp(y,x,1-t) (two executions on swapped arguments; with spins up to the sign (-1)^k); on the linear-fallback branch the result is the affine blend whose squared "
+         "norm differs from 1 by at most 12 eps for t in [-2,3]. lerp(qua) and the compatibility lerp are bit-exactly x*(1-a)+y*a per component (IEEE, operands of the commutative operations sorted) and the asserts of "
+         "lerp(qua) are its only traps; the dual-quaternion lerp is x*(1-a) +- y*a; fastMix is the normalised blend (unit length, end points); shortMix clamps a to [0,1]; squad returns q1 / q2 at h = 0 / 1; "
+         "intermediate(q,q,q) = q (known finding: it returns the zero quaternion) and exp(qua) has the shape (cos|v|, sin|v| v/|v|). In IEEE arithmetic the argument of acos in slerp is shown to lie in [0, 1-eps] "
+         "whenever the acos branch is taken.")
+BOUNDS = ("rounding-erased semantics for the arc claims (code links: all real quaternions x, y - unit length is only needed by the code-free lemmas -, every real t; spin counts k in -3..3 as separate instantiations); "
+          "float and double; the branch conditions (sign flip, fallback threshold 1-eps) are those of the exact values; lerp and the acos-domain claim are bit-precise over all inputs (acos-domain: every floating-point "
+          "sum/product abstracted to an arbitrary float, the dot product assumed not NaN); squad only at h = 0 and h = 1; intermediate only for coinciding key frames (thorough tier: key frames equally spaced on a geodesic)")
 OUTSIDE = ("size of rounding errors (e.g. |norm-1| after rounding, behaviour at separations of 1e-9 rad beyond the branch analysis); mix for exactly antipodal inputs (<x,y> = -1: division by sin(pi) = 0 in exact arithmetic; "
            "in IEEE arithmetic a dot product rounded below -1 makes acos return NaN); fastMix of antipodal inputs at a = 1/2 (blend is zero: normalize returns the identity quaternion); "
-           "squad away from its end points; gtx intermediate (quaternion exp/log: no model of exp/log); sin(acos(c)) > 0 for the libm functions in IEEE arithmetic (only the acos-domain part of the no-NaN claim is decided); "
-           "with spin count k the linear-fallback branch (<x,+-y> > 1-eps, axis of rotation ill-defined) ignores k: only end points and the affine shape are claimed there; "
-           "")
+           "squad away from its end points; intermediate for general key frames (quaternion log/exp of real numbers are uninterpreted); sin(acos(c)) > 0 and 1 - c*c > 0 (shortMix) for the libm functions in IEEE "
+           "arithmetic (only the acos-domain part of the no-NaN claim is decided); with spin count k the linear-fallback branch (<x,+-y> > 1-eps, axis of rotation ill-defined) ignores k: only end points, symmetry and the affine "
+           "shape are claimed there; the composition of the chain links into |out| = 1 etc. is by hand (each link is a solver-discharged obligation, the monolithic statement is out of reach of z3 and cvc5)")
 ASSUMPTIONS = ['float/double literals that are the correctly rounded value of k*pi denote k*pi in the rounding-erased semantics',
-               'libm sin/cos/acos/atan2 are the mathematical functions in the rounding-erased semantics; uninterpreted (same argument, same result) in the bit-precise obligations',
-               'lerp bit-exactness: IEEE addition and multiplication are commutative (operands are sorted before the compiled term and the transcribed formula are compared)']
+               'libm sin/cos/acos/atan2 are the mathematical functions in the rounding-erased semantics (only identities true of the real functions are used); log/exp of reals are arbitrary functions; libm is uninterpreted (same argument, same result) in the bit-precise obligations',
+               'lerp bit-exactness: IEEE addition and multiplication are commutative (operands are sorted before the compiled term and the transcribed formula are compared)',
+               'rewrite steps (squad, intermediate): an inner call executed on its own and the same call inlined into the outer function yield syntactically equal terms after z3.simplify; where they do not, the rewrite is a no-op and the obligation is merely harder, never unsound']
 
 FT = {'f32': 'float', 'f64': 'double'}
 SPINS = [-3, -2, -1, 0, 1, 2, 3]
@@ -37,6 +40,9 @@ for t, c in FT.items():
         U.add('%s_%s' % (kname(k), t), *sig, 'stq(o, glm::slerp(%s(a), %s(b), c[0], %d));' % (Q, Q, k))
     U.add('mix_' + t, *sig, 'stq(o, glm::mix(%s(a), %s(b), c[0]));' % (Q, Q))
     U.add('lerp_' + t, *sig, 'stq(o, glm::lerp(%s(a), %s(b), c[0]));' % (Q, Q))
+    U.add('clerp1_' + t, [(c, 1), (c, 1), (c, 1)], [(c, 1)], 'o[0] = glm::lerp(a[0], b[0], c[0]);')
+    U.add('clerp4_' + t, [(c, 4), (c, 4), (c, 1)], [(c, 4)], 'stv(o, glm::lerp(ldv<4,%s>(a), ldv<4,%s>(b), c[0]));' % (c, c))
+    U.add('clerp3v_' + t, [(c, 3), (c, 3), (c, 3)], [(c, 3)], 'stv(o, glm::lerp(ldv<3,%s>(a), ldv<3,%s>(b), ldv<3,%s>(c)));' % (c, c, c))
     U.add('shortmix_' + t, *sig, 'stq(o, glm::shortMix(%s(a), %s(b), c[0]));' % (Q, Q))
     U.add('fastmix_' + t, *sig, 'stq(o, glm::fastMix(%s(a), %s(b), c[0]));' % (Q, Q))
     U.add('squad_' + t, [(c, 4), (c, 4), (c, 4), (c, 4), (c, 1)], [(c, 4)], 'stq(o, glm::squad(%s(a), %s(b), %s(c), %s(d), e[0]));' % (Q, Q, Q, Q))
@@ -121,6 +127,8 @@ def chk(S, unit_, fn, spec, pre=None, setup=None, split_side=False, witness_at=N
         box['T'] = Trig(res.ex); box['res'] = res
         return list(setup(res, box['T']) or []) if setup else []
     kw.setdefault('mode', 'real'); kw.setdefault('timeout', S.cap(40, 120)); kw.setdefault('solver', 'nra')
+    if kw.get('mutant') is not None:
+        mut = kw['mutant']; kw['mutant'] = lambda i, o: mut(i, o, box['T'])
     if split_side: kw['side'] = False
     if witness_at is not None: kw['witness'] = False
     res = S.check_fn(unit_, fn, lambda i, o: spec(i, o, box['T']), pre, extra_hyps=xh, ex=mkex, **kw)
@@ -217,7 +225,12 @@ def job_slerp(t, fn='slerp', kind='slerp', k=None):
             g = [('acos.arg==<x,z>', RGoal('eq', T.inv_arg('acos', 0, 0, A['C']), A['C'], nf))] + arc_goals(A, out, nf, fb)
             if kind != 'mix': g.append(('short-arc: theta<=pi/2', RGoal('le', 2 * A['th'], T.pi(A['th']), nf)))
             return g
-        chk(S, U, name, spec, pre, setup=lambda res, T: arc_setup(res, T, kind, k),
+        def mutant(i, o, T):      # deliberately wrong specifications that must be refutable (thorough tier)
+            A = arc(i, T, kind, k); out = [rv(v) for v in o[0]]; nf = z3.Not(A['C'] > 1 - eps)
+            return [('shape with the weights swapped', RGoal('eq', out[0] * A['S'], A['su'] * A['x'][0] + A['s1'] * A['z'][0], nf)),
+                    ('shape with -z', RGoal('eq', out[1] * A['S'], A['s1'] * A['x'][1] - A['su'] * A['z'][1], nf)),
+                    ('fallback on the arc branch', RGoal('eq', out[2], A['x'][2] * (1 - A['t']) + A['z'][2] * A['t'], nf))]
+        chk(S, U, name, spec, pre, setup=lambda res, T: arc_setup(res, T, kind, k), mutant=mutant,
             bounds='all real quaternions x, y%s; every real t; chain link (code): shape of the result and the trig facts used by lemmas.*' % (' with <x,y> > -1' if kind == 'mix' else ''))
         # end points: t = 0 and t = 1 as separate executions of the same code with the literal factor
         for tv in (0, 1):
@@ -370,7 +383,31 @@ def job_lerp(t):
         def spec_r(i, o, T):
             x, y, a_ = i[0], i[1], i[2][0]
             return [('lerp[%d] == x*(1-a) + y*a (exact)' % j, REq(rv(o[0][j]), x[j] * (1 - a_) + y[j] * a_)) for j in range(4)]
-        chk(S, U, name, spec_r, pre_r, name='c13.%s.real' % name, bounds='all real quaternions, 0 <= a <= 1 (asserted range, traps unreachable); rounding-erased')
+        chk(S, U, name, spec_r, pre_r, name='c13.%s.real' % name, bounds='all real quaternions, 0 <= a <= 1 (asserted range, traps unreachable); rounding-erased',
+            mutant=lambda i, o, T: [('weights swapped', REq(rv(o[0][0]), i[0][0] * i[2][0] + i[1][0] * (1 - i[2][0])))])
+        # gtx/compatibility lerp (scalar, vector with scalar and with vector factor): documented as x*(1-a) + y*a for every a
+        for cf, n, vecfac in (('clerp1', 1, False), ('clerp4', 4, False), ('clerp3v', 3, True)):
+            cname = '%s_%s' % (cf, t); r2 = sym_call(U, cname, mode='fp'); mm = {}
+            try:
+                ncmp, bad = validate_translation(r2, S.rnd, 4 if S.quick else 12); S.validated += ncmp
+                if bad: S.engine_errors.append('c13.%s: symbolic term disagrees with native execution: %s' % (cname, json.dumps(bad[0])))
+            except Exception as e:
+                S.rec(name='c13.%s.validate' % cname, kind='validate', result='error', status='skipped', note=str(e)[:300], mandatory=False)
+            def spec_c(i_, o_, n=n, vecfac=vecfac):
+                m2 = {}; g = []
+                for j in range(n):
+                    a_ = fpof(i_[2][j if vecfac else 0])
+                    g.append(('compat.lerp[%d] == x*(1-a) + y*a (IEEE)' % j, canon_fp(fpv_of(o_[0][j]), m2) == canon_fp(z3.fpAdd(RNE, z3.fpMul(RNE, fpof(i_[0][j]), z3.fpSub(RNE, one, a_)), z3.fpMul(RNE, fpof(i_[1][j]), a_)), m2)))
+                return g
+            for label, g in spec_c(r2.ins, r2.outs):
+                oname = 'c13.%s.%s' % (cname, label)
+                S.prove(oname, g, [], timeout=S.cap(30, 90), kind='spec', functions=['w_' + cname], replay=S._replayer(r2, (spec_c, label), None, U, cname, 'fp', oname), vars_=[v for row in r2.ins for v in row],
+                        bounds='all bit patterns of x, y, a; result bit-identical (one NaN) to the documented expression')
+            ub = [cnd for kind_, cnd, d in r2.obligations]
+            if ub: S.prove('c13.%s.no-trap/ub' % cname, z3.Not(z3.Or(*ub)), [], timeout=S.cap(20, 60), kind='ub', functions=['w_' + cname])
+            def spec_cr(i, o, T, n=n, vecfac=vecfac):
+                return [('compat.lerp[%d] == x*(1-a) + y*a (exact)' % j, REq(rv(o[0][j]), i[0][j] * (1 - i[2][j if vecfac else 0]) + i[1][j] * i[2][j if vecfac else 0])) for j in range(n)]
+            chk(S, U, cname, spec_cr, None, name='c13.%s.real' % cname, bounds='all reals; rounding-erased')
     return run
 
 def job_dqlerp(t):
@@ -380,7 +417,8 @@ def job_dqlerp(t):
         def spec_d(i, o, T):
             x, y, a = i[0], i[1], i[2][0]; kk = z3.If(dot(x[:4], y[:4]) < 0, -a, a)
             return [('dualquat.lerp[%d] == x*(1-a) + y*(+-a)' % j, REq(rv(o[0][j]), x[j] * (1 - a) + y[j] * kk)) for j in range(8)]
-        chk(S, U, 'dqlerp_' + t, spec_d, pre_d, bounds='all dual quaternions, 0 <= a <= 1 (asserted range, traps unreachable); rounding-erased')
+        chk(S, U, 'dqlerp_' + t, spec_d, pre_d, bounds='all dual quaternions, 0 <= a <= 1 (asserted range, traps unreachable); rounding-erased',
+            mutant=lambda i, o, T: [('no sign choice', REq(rv(o[0][5]), i[0][5] * (1 - i[2][0]) + i[1][5] * i[2][0]))])
         for tv in (0, 1):
             def spec_de(i, o, T, tv=tv):
                 x, y = i[0], i[1]; sg = z3.If(dot(x[:4], y[:4]) < 0, -ONE, ONE)
@@ -423,7 +461,8 @@ def job_fastmix(t):
             g += [('shape[%d]: out*len==x(1-a)+y a' % j, RGoal('eq', out[j] * L, r[j], nz)) for j in range(4)]
             g += [('zero-blend[%d]: identity' % j, RGoal('eq', out[j], ONE if j == 0 else ZERO, z3.Not(nz))) for j in range(4)]
             return g
-        chk(S, U, name, spec, None, bounds='all real quaternions x, y, every real a: out = blend/|blend| (identity quaternion for a zero blend); with lemmas.nlerp.norm: unit length')
+        chk(S, U, name, spec, None, bounds='all real quaternions x, y, every real a: out = blend/|blend| (identity quaternion for a zero blend); with lemmas.nlerp.norm: unit length',
+            mutant=lambda i, o, T: [('not normalised', REq(rv(o[0][0]), blend(i)[0]))])
         for tv in (0, 1):
             def spec_e(i, o, T, tv=tv): return [('t=%d[%d]: out==%s' % (tv, j, 'xy'[tv]), REq(rv(o[0][j]), i[tv][j])) for j in range(4)]
             x_, y_ = [z3.Real('a%d' % j) for j in range(4)], [z3.Real('b%d' % j) for j in range(4)]
